@@ -858,7 +858,13 @@ def _judge(chk, recs, label="c18"):
     res = lib.judge_with_canaries(chk, "Trace_ConfigId", recs, must, label=label, what="cfg / rt / line / fam / proc observations of the real MazeDatasetConfig judged against ConfigId.tla", case_of=case_of)
     hs = sorted({c for cs in res.verdicts.values() for c in cs if c.startswith("H:")})
     if hs:
-        raise lib.MachineryError(f"harness guard clauses fired: {hs}")
+        # a guard says "this record is not what the driver meant to build".  When the same run also convicts the code of a
+        # property clause, the likeliest cause is that very defect (e.g. a constructor that does not keep the seed it is given makes the
+        # driver's own "fresh equal config" unequal): report the violations (exit 1), not a machinery failure (exit 2)
+        if chk.violations:
+            print(f"NOTE property=C18 harness guard clauses {hs} fired in a run that also found property violations; they are not judged")
+        else:
+            raise lib.MachineryError(f"harness guard clauses fired: {hs}")
     return res
 
 
